@@ -48,4 +48,66 @@ static int mx13_open(uint16_t suite, const unsigned char *key, const unsigned ch
     EVP_CIPHER_CTX_free(x);
     return ok > 0 ? ctl : -1;
 }
+
+/* ---- authentic records under the sender's CURRENT write state (any version) ----
+ * mx_seal_as(sender, type, content, len, out): builds the record an endpoint holding `sender`'s
+ * keys could legitimately send next (content type and content are arbitrary), and advances the
+ * sender's write sequence number so that its later honest records stay in sequence.
+ * Returns the record length, or -1 when the sender is not encrypting / the suite is not handled. */
+static void mx_incr_be(unsigned char *s, int n) { for (int i = n - 1; i >= 0; i--) if (++s[i]) break; }
+static int mx_seal_as(mx_ep *snd, int type, const unsigned char *content, int len, unsigned char *out)
+{
+    ssl_t *ssl = snd->ssl; int dtls = MX_IS_DTLS(snd->ver);
+    if (!(ssl->flags & SSL_FLAGS_WRITE_SECURE) || !ssl->cipher) return -1;
+    if (snd->ver == MX_TLS13) {
+        const unsigned char *key; sslSec_t *sc = &ssl->sec; uint16_t suite = ssl->cipher->ident;
+        if (!memcmp(sc->tls13WriteIv, sc->tls13AppWriteIv, 12)) key = sc->tls13AppWriteKey;
+        else if (!memcmp(sc->tls13WriteIv, sc->tls13HsWriteIv, 12)) key = sc->tls13HsWriteKey;
+        else if (!memcmp(sc->tls13WriteIv, sc->tls13EarlyDataIv, 12)) key = sc->tls13EarlyDataKey;
+        else return -1;
+        unsigned char *inner = malloc(len + 1); memcpy(inner, content, len); inner[len] = (unsigned char) type;
+        int n = mx13_seal(suite, key, sc->tls13WriteIv, mx_seq8(sc->seq), inner, len + 1, 23, out);
+        free(inner); mx_incr_be(sc->seq, 8);
+        return n;
+    }
+    int maj = dtls ? 254 : 3, min = snd->ver == MX_TLS11 ? 2 : snd->ver == MX_TLS12 ? 3 : snd->ver == MX_DTLS10 ? 255 : 253;
+    unsigned char seq[8]; int h = dtls ? 13 : 5;
+    if (dtls) { memcpy(seq, ssl->epoch, 2); memcpy(seq + 2, ssl->rsn, 6); } else memcpy(seq, ssl->sec.seq, 8);
+    out[0] = (unsigned char) type; out[1] = maj; out[2] = min;
+    if (dtls) memcpy(out + 3, seq, 8);
+    int keylen = ssl->cipher->keySize, bodylen;
+    if (ssl->cipher->flags & CRYPTO_FLAGS_GCM) {
+        unsigned char nonce[12], aad[13]; int l = 0, l2 = 0;
+        memcpy(nonce, ssl->sec.writeIV, 4); memcpy(nonce + 4, seq, 8);
+        memcpy(aad, seq, 8); aad[8] = type; aad[9] = maj; aad[10] = min; aad[11] = len >> 8; aad[12] = len;
+        memcpy(out + h, seq, 8);
+        EVP_CIPHER_CTX *x = EVP_CIPHER_CTX_new();
+        EVP_EncryptInit_ex(x, keylen == 16 ? EVP_aes_128_gcm() : EVP_aes_256_gcm(), NULL, NULL, NULL);
+        EVP_CIPHER_CTX_ctrl(x, EVP_CTRL_AEAD_SET_IVLEN, 12, NULL);
+        EVP_EncryptInit_ex(x, NULL, NULL, ssl->sec.writeKey, nonce);
+        EVP_EncryptUpdate(x, NULL, &l, aad, 13);
+        EVP_EncryptUpdate(x, out + h + 8, &l, content, len);
+        EVP_EncryptFinal_ex(x, out + h + 8 + l, &l2);
+        EVP_CIPHER_CTX_ctrl(x, EVP_CTRL_AEAD_GET_TAG, 16, out + h + 8 + len);
+        EVP_CIPHER_CTX_free(x);
+        bodylen = 8 + len + 16;
+    } else if ((ssl->cipher->flags & CRYPTO_FLAGS_AES) || (ssl->cipher->flags & CRYPTO_FLAGS_AES256)) {
+        int ms = ssl->enMacSize; unsigned int ml = 0; unsigned char mac[64], hdr13[13];
+        const EVP_MD *md = ms == 20 ? EVP_sha1() : ms == 32 ? EVP_sha256() : ms == 48 ? EVP_sha384() : NULL;
+        if (!md) return -1;
+        memcpy(hdr13, seq, 8); hdr13[8] = type; hdr13[9] = maj; hdr13[10] = min; hdr13[11] = len >> 8; hdr13[12] = len;
+        HMAC_CTX *hc = HMAC_CTX_new(); HMAC_Init_ex(hc, ssl->sec.writeMAC, ms, md, NULL); HMAC_Update(hc, hdr13, 13); HMAC_Update(hc, content, len); HMAC_Final(hc, mac, &ml); HMAC_CTX_free(hc);
+        int ptl = len + ms; int pad = 16 - (ptl % 16); /* pad bytes incl. length byte, each = pad-1 */
+        unsigned char *pt = malloc(ptl + pad); memcpy(pt, content, len); memcpy(pt + len, mac, ms); memset(pt + ptl, pad - 1, pad);
+        unsigned char iv[16]; for (int i = 0; i < 16; i++) iv[i] = (unsigned char) (0x40 + i + seq[7]);
+        memcpy(out + h, iv, 16);
+        int l = 0, l2 = 0; EVP_CIPHER_CTX *x = EVP_CIPHER_CTX_new();
+        EVP_EncryptInit_ex(x, keylen == 16 ? EVP_aes_128_cbc() : EVP_aes_256_cbc(), NULL, ssl->sec.writeKey, iv); EVP_CIPHER_CTX_set_padding(x, 0);
+        EVP_EncryptUpdate(x, out + h + 16, &l, pt, ptl + pad); EVP_EncryptFinal_ex(x, out + h + 16 + l, &l2); EVP_CIPHER_CTX_free(x); free(pt);
+        bodylen = 16 + ptl + pad;
+    } else return -1;
+    out[h - 2] = bodylen >> 8; out[h - 1] = bodylen;
+    if (dtls) mx_incr_be(ssl->rsn, 6); else mx_incr_be(ssl->sec.seq, 8);
+    return h + bodylen;
+}
 #endif
